@@ -19,6 +19,7 @@ import z3
 from .interp import Undecided, BreakEx, ContinueEx, ReturnEx, PathEnd
 from .values import NDArr, Store, Opaque, is_sym, to_z3, as_int_term, concrete_int
 from .contract import Equiv
+from .symlist import SymList
 
 
 class Entry:
@@ -56,7 +57,9 @@ class SeqLoop:
 
     def matches(self, interp, node):
         return (interp.stack[-1].func_name.split(".")[-1] == self.func.split(".")[-1]
-                and ast.unparse(node.target) == self.target and ast.unparse(node.iter) == self.iter_text)
+                and ast.unparse(node.target) == self.target
+                and (self.iter_text is None or ast.unparse(node.iter) == self.iter_text))  # None: any iterable (the trip
+        # count is always taken from the REAL iterable; the contract's state must then account for it)
 
 
 def assigned_names(stmts):
@@ -82,6 +85,8 @@ def trip_count(interp, it):
         return it.start, it.stop
     if isinstance(it, NDArr) and it.ndim == 1:
         return 0, it.shape[0]
+    if isinstance(it, SymList):
+        return 0, it.length
     if isinstance(it, Opaque) and it.tag == "seq":
         return 0, it.payload["len"]
     if isinstance(it, Opaque) and it.tag == "enumerate":  # enumerate(<1-D array of symbolic length>, start)
@@ -173,7 +178,7 @@ def run_loop(interp, node, it, spec: SeqLoop):
     _set_state(interp, spec.state(interp, k, entry))
     if spec.element:
         elem = spec.element(interp, k, entry, it)
-    elif isinstance(it, NDArr):
+    elif isinstance(it, (NDArr, SymList)):
         elem = it.get(k)
     elif isinstance(it, Opaque) and it.tag == "enumerate":
         elem = (k + to_z3(it.payload[1]) if not _zero(it.payload[1]) else k, it.payload[0].get(k))
